@@ -150,7 +150,7 @@ def _val(ctx, n, only=None):
         return
     ctx.rules.append("area val: the Lean driver prints the model's parse tree (variables substituted); the harness walks it "
                      "with the library's exported Operator.Evaluate/EvaluateUnary and Functions and compares with "
-                     "Evaluate of 7 real evaluators (fixed D4/D2, float64/32, both division-by-zero settings), reused and fresh; "
+                     "Evaluate of 10 real evaluators (fixed D1/D2/D4/D6/D16, float64/32, both division-by-zero settings), reused and fresh; "
                      "literal texts are converted by the harness's own strconv.ParseFloat at the evaluator's bit size / "
                      "fXX.FromString and handed to operators and functions as VALUES (call arguments: trees from the driver)")
     before = len(ctx.violations)
